@@ -28,13 +28,13 @@ func verifKeyCtx(key string) context.Context {
 }
 
 type verifLookup struct {
-	s        *LookupPartitionStrategy
-	a, b     *LookupPartition
-	fa, fb   float64
-	limit    int
-	total    int
-	ba, bb   int
-	bu       int
+	s      *LookupPartitionStrategy
+	a, b   *LookupPartition
+	fa, fb float64
+	limit  int
+	total  int
+	ba, bb int
+	bu     int
 }
 
 // verifLookupState: strategy built by the real constructors with two named partitions, total limit
